@@ -52,7 +52,7 @@ def flow_b(ctx, mine, n, salt, kinds=("edited",)):
     rng = random.Random(ctx.seed * 715827883 % (2 ** 31) + salt)
     graphs, cases = [], []
     for i in range(n):
-        k = rng.choice([2, 2, 3, 3, 4])
+        k = rng.choice([2, 2, 3, 3, 4, 5] if ctx.quick else [2, 3, 3, 4, 5, 6])
         live = None
         for _ in range(5):
             live = cf.generated_live(rng, k)
@@ -111,7 +111,7 @@ def flow_b(ctx, mine, n, salt, kinds=("edited",)):
             vt = []
             if vtmode != "none":
                 base = w if kind == "edited" else s
-                rv = impl.call(dsw.set_vt, impl.dna(base), rng.choice([2, 3, 5]))
+                rv = impl.call(dsw.set_vt, impl.dna(base), rng.choice([2, 3, 5, 33, 40]))
                 if rv["out"] == "ok":
                     vt = impl.undna(rv["value"])
                     if vtmode == "wrong":
